@@ -132,7 +132,7 @@ def run(ctx):
     lines, jobs = [], []
     violations, disagreements, samples = [], [], []
     distinct = set()
-    n_cases = ctx.scale(220, 6000)
+    n_cases = ctx.scale(1200, 30000)
     built = []
 
     def one(spec, inherit=False):
